@@ -656,7 +656,10 @@ protected:
             }
             else
             {
-                start = m_writer.write( chars, start, length);
+                // This is the data of a comment or a processing
+                // instruction, so a character that is not representable
+                // cannot be written as a character reference.
+                start = m_writer.writeNoCharRef(chars, start, length);
             }
         }
 
